@@ -304,6 +304,7 @@ pub fn load(repo: &Path, rel: &str) -> Result<Src, String> {
     let text = std::fs::read_to_string(&p).map_err(|e| format!("{}: {}", p.display(), e))?;
     let mut file = syn::parse_file(&text).map_err(|e| format!("{}: parse error: {}", rel, e))?;
     strip_tests(&mut file.items);
+    strip_docs(&mut file);
     undo_private_renames(rel, &mut file);
     undo_param_renames(rel, &mut file);
     if std::env::var("VERIF_NO_NORMALIZE").is_err() {
@@ -311,6 +312,92 @@ pub fn load(repo: &Path, rel: &str) -> Result<Src, String> {
         crate::normalize::normalize_file_with(&mut file, reviewed.as_ref());
     }
     Ok(Src { rel: rel.to_string(), file, text })
+}
+
+/// Doc comments (`#[doc = ".."]`) are documentation, not code: they are removed from the model.
+fn strip_docs(file: &mut syn::File) {
+    struct D;
+    fn clean(a: &mut Vec<syn::Attribute>) {
+        a.retain(|x| !x.path().is_ident("doc"));
+    }
+    impl syn::visit_mut::VisitMut for D {
+        fn visit_item_fn_mut(&mut self, i: &mut syn::ItemFn) {
+            clean(&mut i.attrs);
+            syn::visit_mut::visit_item_fn_mut(self, i);
+        }
+        fn visit_impl_item_fn_mut(&mut self, i: &mut syn::ImplItemFn) {
+            clean(&mut i.attrs);
+            syn::visit_mut::visit_impl_item_fn_mut(self, i);
+        }
+        fn visit_impl_item_const_mut(&mut self, i: &mut syn::ImplItemConst) {
+            clean(&mut i.attrs);
+            syn::visit_mut::visit_impl_item_const_mut(self, i);
+        }
+        fn visit_item_impl_mut(&mut self, i: &mut syn::ItemImpl) {
+            clean(&mut i.attrs);
+            syn::visit_mut::visit_item_impl_mut(self, i);
+        }
+        fn visit_item_struct_mut(&mut self, i: &mut syn::ItemStruct) {
+            clean(&mut i.attrs);
+            syn::visit_mut::visit_item_struct_mut(self, i);
+        }
+        fn visit_item_enum_mut(&mut self, i: &mut syn::ItemEnum) {
+            clean(&mut i.attrs);
+            syn::visit_mut::visit_item_enum_mut(self, i);
+        }
+        fn visit_field_mut(&mut self, i: &mut syn::Field) {
+            clean(&mut i.attrs);
+            syn::visit_mut::visit_field_mut(self, i);
+        }
+        fn visit_variant_mut(&mut self, i: &mut syn::Variant) {
+            clean(&mut i.attrs);
+            syn::visit_mut::visit_variant_mut(self, i);
+        }
+        fn visit_item_const_mut(&mut self, i: &mut syn::ItemConst) {
+            clean(&mut i.attrs);
+            syn::visit_mut::visit_item_const_mut(self, i);
+        }
+        fn visit_item_static_mut(&mut self, i: &mut syn::ItemStatic) {
+            clean(&mut i.attrs);
+            syn::visit_mut::visit_item_static_mut(self, i);
+        }
+        fn visit_item_type_mut(&mut self, i: &mut syn::ItemType) {
+            clean(&mut i.attrs);
+            syn::visit_mut::visit_item_type_mut(self, i);
+        }
+        fn visit_item_trait_mut(&mut self, i: &mut syn::ItemTrait) {
+            clean(&mut i.attrs);
+            syn::visit_mut::visit_item_trait_mut(self, i);
+        }
+        fn visit_trait_item_fn_mut(&mut self, i: &mut syn::TraitItemFn) {
+            clean(&mut i.attrs);
+            syn::visit_mut::visit_trait_item_fn_mut(self, i);
+        }
+        fn visit_item_mod_mut(&mut self, i: &mut syn::ItemMod) {
+            clean(&mut i.attrs);
+            syn::visit_mut::visit_item_mod_mut(self, i);
+        }
+        fn visit_item_use_mut(&mut self, i: &mut syn::ItemUse) {
+            clean(&mut i.attrs);
+        }
+        fn visit_item_macro_mut(&mut self, i: &mut syn::ItemMacro) {
+            clean(&mut i.attrs);
+        }
+        fn visit_local_mut(&mut self, i: &mut syn::Local) {
+            clean(&mut i.attrs);
+            syn::visit_mut::visit_local_mut(self, i);
+        }
+        fn visit_arm_mut(&mut self, i: &mut syn::Arm) {
+            clean(&mut i.attrs);
+            syn::visit_mut::visit_arm_mut(self, i);
+        }
+        fn visit_field_value_mut(&mut self, i: &mut syn::FieldValue) {
+            clean(&mut i.attrs);
+            syn::visit_mut::visit_field_value_mut(self, i);
+        }
+    }
+    file.attrs.retain(|x| !x.path().is_ident("doc"));
+    syn::visit_mut::VisitMut::visit_file_mut(&mut D, file);
 }
 
 pub fn is_cfg_test(attrs: &[syn::Attribute]) -> bool {
